@@ -375,13 +375,18 @@ def c09(ck):
 
 
 @check("C12", design_ref="4 C12",
-       technique="TLA+ domain rules (bignum layer) as oracle; trace validation of real factory calls and fills at and beyond every boundary in every accepted Go type",
+       technique="TLC model checking that the TLA+ domain rules (bignum layer) coincide with 'the two's-complement image reads back as the value' for every integer format on a boundary scope; those rules as oracle in trace validation of real factory calls and fills at and beyond every boundary in every accepted Go type",
        text="The specification states, with its own unbounded arithmetic, which mathematical values each format holds, which names, ellipsis "
             "placements, ASCII bounds and message headers are valid; every factory is called with values at, next to and far beyond every "
             "power-of-two boundary in every Go integer type that can hold them, with boundary floats, binary strings, names, bounds and headers; "
             "TLC checks refusal iff out of domain, and that stored, printed and encoded values equal the mathematical value passed.",
        note=ITEMS_NOTE + "; rounding of a Go float to F4/F8 is delegated to Go's conversion")
 def c12(ck):
+    # model stage: the domain rule the trace checks use says the same as the encoding (in the domain of a w-byte format iff the
+    # two's-complement image in w bytes reads back as the value itself), domains are nested, floats are in the domain iff finite
+    ck.rule.append("model: MCCtor - +-(2^k + d), k in 0..65, d in -2..2, in all 8 integer formats: ElemInDomain = no wrap-around; float "
+                   "patterns of every exponent: in the domain iff finite")
+    ck.model("MCCtor", "MCCtor", "MCCtor.cfg", timeout=600)
     ck.rule.append("each boundary value 2^k-2..2^k+1 (k in 7,8,15,16,31,32,63), signed and unsigned, x 10 Go integer types x 11 numeric "
                    "formats, first or second position, also through FillVariables; random 64-bit values; 24 boundary floats as float64/float32; "
                    "binary strings; ASCII strings; 23 names x 6 positions; 10 bound pairs; 200 message headers; non-trivial = every event; "
